@@ -494,11 +494,14 @@ class Formatter:
         return f"{v_sql}[{i_sql}]"
 
     def _between(self, json, prec):
-        return "{0} BETWEEN {1} AND {2}".format(
+        sql = "{0} BETWEEN {1} AND {2}".format(
             self.dispatch(json[0], precedence["between"]),
             self.dispatch(json[1], precedence["between"]),
             self.dispatch(json[2], precedence["between"]),
         )
+        if prec < precedence["between"]:
+            return f"({sql})"
+        return sql
 
     def _trim(self, json, prec):
         c = json.get("characters")
@@ -518,11 +521,14 @@ class Formatter:
         return "".join(acc)
 
     def _not_between(self, json, prec):
-        return "{0} NOT BETWEEN {1} AND {2}".format(
+        sql = "{0} NOT BETWEEN {1} AND {2}".format(
             self.dispatch(json[0], precedence["between"]),
             self.dispatch(json[1], precedence["between"]),
             self.dispatch(json[2], precedence["between"]),
         )
+        if prec < precedence["between"]:
+            return f"({sql})"
+        return sql
 
     def _distinct(self, json, prec):
         return "DISTINCT " + ", ".join(self.dispatch(v, precedence["select"]) for v in listwrap(json))
